@@ -180,15 +180,6 @@ theorem view_valid (r : RelA) (hr : r.ok = true) : validR r.view = true := by
 theorem constraintToks_eq (c : VC) : constraintToks c = tks (opToks c) := by
   cases c <;> simp [constraintToks, VC.display, opToks, tks, tk]
 
-theorem splitOnce_append (sep : Char) (a b : Str) (h : sep ∉ a) :
-    splitOnce sep (a ++ sep :: b) = some (a, b) := by
-  induction a with
-  | nil => simp [splitOnce]
-  | cons c cs ih =>
-    have hc : c ≠ sep := fun e => h (by simp [e])
-    have hcs : sep ∉ cs := fun e => h (by simp [e])
-    simp [splitOnce, hc, ih hcs]
-
 theorem colon_not_digit : isAsciiDigit ':' = false := by decide
 
 theorem colon_notin_toString (n : Nat) : ':' ∉ (toString n).toList := by
@@ -293,23 +284,6 @@ theorem acc_buildRel (r : RV) (h : validR r = true) : accRelation (buildRel r) =
 
 theorem constraintToks_text (c : VC) : textList (constraintToks c) = c.display := by
   cases c <;> simp [constraintToks, VC.display]
-
-theorem splitOnce_join {sep : Char} {s a b : Str} (h : splitOnce sep s = some (a, b)) :
-    a ++ sep :: b = s := by
-  induction s generalizing a b with
-  | nil => simp [splitOnce] at h
-  | cons c cs ih =>
-    unfold splitOnce at h
-    by_cases hc : c = sep
-    · simp only [hc, if_true, Option.some.injEq, Prod.mk.injEq] at h
-      obtain ⟨rfl, rfl⟩ := h; simp [hc]
-    · simp only [hc, if_false] at h
-      cases hs : splitOnce sep cs with
-      | none => simp [hs] at h
-      | some r =>
-        simp only [hs, Option.some.injEq, Prod.mk.injEq] at h
-        obtain ⟨rfl, rfl⟩ := h
-        simp [ih (a := r.1) (b := r.2) (by rw [hs])]
 
 theorem versionToks_text (v : Version) : textList (versionToks v) = v.display := by
   unfold versionToks
